@@ -426,6 +426,22 @@ fn observe(zone: &Zone, q: &Rel, qtype: u16, oz: bool) -> Obs {
     o
 }
 
+fn observe_walk(zone: &Zone) -> Vec<String> {
+    let acc: std::sync::Arc<std::sync::Mutex<Vec<String>>> = Default::default();
+    let acc2 = acc.clone();
+    zone.read().walk(Box::new(move |owner: Name<Bytes>, rrset: &SharedRrset, at_cut: bool| {
+        let o = Rel::from_abs(&owner).map(|x| x.show()).unwrap_or_else(|| "!".into());
+        let mut v = acc2.lock().unwrap();
+        for d in rrset.data() {
+            let (t, rd) = rd_of(d);
+            v.push(format!("{}/{}/{}/{}/{}", o, t, rrset.ttl().as_secs(), rd.show(), at_cut as u8));
+        }
+    }));
+    let mut v = acc.lock().unwrap().clone();
+    v.sort();
+    v
+}
+
 // ---------------------------------------------------------------- flat content and the RFC spec
 
 /// The zone as a flat record set: (owner, type) -> (ttl, rdata set).
@@ -558,21 +574,117 @@ fn is_plain(case: &str) -> bool {
         f.len() >= 4 && f[1] != "@" && (f[2] == "2" || f[2] == "5" || f[2] == "43") })
 }
 
-fn history_class(z: &Flat, q: &Rel, e: &Expect, o: &Obs, plain: bool) -> &'static str {
-    // the answer carries a record that is no longer in the zone: a delegation / alias that the builder
-    // stored in the node's `Special` cannot be deleted through RRset-level updates
-    let all: BTreeSet<String> = z.records().iter().map(|r| format!("{}/{}/{}", r.rtype, r.ttl, r.rd.show())).collect();
-    let owned: BTreeSet<String> = z.records().iter().map(|r| r.show_slash()).collect();
-    if o.answer.iter().any(|r| !all.contains(r)) || o.authority.iter().chain(o.additional.iter()).any(|r| !owned.contains(r)) { return "special_survives_delete"; }
-    if !o.aa && e.aa { return "special_survives_delete"; }
-    // a delegation / alias is due, but the NS / CNAME records were stored as plain RRsets
-    if e.what == "referral" || e.what.starts_with("cut_ds") { return "updater_ns_not_cut"; }
-    if e.what == "cname" || e.what == "wild_cname" { return "updater_cname_not_special"; }
-    // A delegation / alias that survived its deletion keeps its name (and the names above it) alive,
-    // which shows as a shadowed wildcard or as NODATA for a name that is gone.  With such records in
-    // the history every remaining deviation is attributed to that duality; the node-bookkeeping
-    // classes below are reserved for histories without any delegation / alias record.
-    if !plain { return "special_survives_delete"; }
+/// The delegation / alias state (`Special`) of a node, as canonical strings.
+#[derive(Clone, PartialEq, Eq, Debug)]
+enum Sp { Cut { ns: BTreeSet<String>, ds: BTreeSet<String>, glue: BTreeSet<String> }, Cname(BTreeSet<String>) }
+
+fn sp_of_cut(c: &CutD) -> Sp {
+    let strs = |r: &RrsetD| -> BTreeSet<String> { r.rds.iter().map(|d| format!("{}/{}/{}", r.rtype, r.ttl, d.show())).collect() };
+    Sp::Cut { ns: strs(&c.ns), ds: c.ds.as_ref().map(strs).unwrap_or_default(), glue: c.glue.iter().map(|g| g.show_slash()).collect() }
+}
+
+/// What a zone built directly from `z` holds as special at `n`.
+fn expected_special(z: &Flat, n: &Rel) -> Option<Sp> {
+    if n.0.is_empty() { return None; }
+    if z.has(n, T_NS) {
+        let mut glue = BTreeSet::new();
+        for rd in &z.m[&(n.clone(), T_NS)].1 {
+            if let Rd::Tgt(t) = rd { if !z.has(t, T_CNAME) { glue.extend(z.rrset_strs(t, T_A, Some(t))); glue.extend(z.rrset_strs(t, T_AAAA, Some(t))); } }
+        }
+        return Some(Sp::Cut { ns: z.rrset_strs(n, T_NS, None), ds: z.rrset_strs(n, T_DS, None), glue });
+    }
+    if z.has(n, T_CNAME) { return Some(Sp::Cname(z.rrset_strs(n, T_CNAME, None))); }
+    None
+}
+
+/// Content and per-node special state a sequence of operations leads to, by the
+/// meaning of the operations (independent of the implementation and of the model).
+struct Replayed { content: Flat, special: BTreeMap<Rel, Sp> }
+
+fn replay(ops: &[Op]) -> Replayed {
+    let mut comm = Flat::default();
+    let mut sh: BTreeMap<Rel, Sp> = BTreeMap::new();
+    let mut work: Option<(Flat, BTreeMap<Rel, Sp>)> = None;
+    let mut built = false;
+    let mut zseen = false;
+    let mut fin = false;
+    for op in ops {
+        if op.is_history() && !built {
+            built = true;
+            if zseen { sh.clear(); let owners: BTreeSet<Rel> = comm.m.keys().map(|k| k.0.clone()).collect();
+                for o in owners { if let Some(x) = expected_special(&comm, &o) { sh.insert(o, x); } } }
+        }
+        match op {
+            Op::BRr(n, r) => comm.set(n, r),
+            Op::BCut(c) => { if !c.name.0.is_empty() { comm.set(&c.name, &c.ns); if let Some(d) = &c.ds { comm.set(&c.name, d); } sh.insert(c.name.clone(), sp_of_cut(c)); } }
+            Op::BCname(n, ttl, rd) => { if !n.0.is_empty() { let r = RrsetD { rtype: T_CNAME, ttl: *ttl, rds: vec![rd.clone()] }; comm.set(n, &r);
+                sh.insert(n.clone(), Sp::Cname([format!("5/{}/{}", ttl, rd.show())].into_iter().collect())); } }
+            Op::ZRec(r) => { zseen = true; comm.add(r); }
+            Op::UNew => { work = Some((comm.clone(), sh.clone())); fin = false; }
+            Op::WOpen => { work = Some((comm.clone(), sh.clone())); }
+            Op::UAdd(r) => { if !fin { if let Some(w) = work.as_mut() { w.0.add(r); } } }
+            Op::UDel(r) => { if !fin { if let Some(w) = work.as_mut() { w.0.del(r); } } }
+            Op::UDelAll => { if !fin { if let Some(w) = work.as_mut() { w.0 = Flat::default(); w.1.clear(); } } }
+            Op::UBatchDel(_) => { if !fin { if let Some(w) = work.as_ref() { comm = w.0.clone(); sh = w.1.clone(); } } }
+            Op::UBatchAdd(t) => { if !fin { if let Some(w) = work.as_mut() { w.0.m.remove(&(Rel::apex(), T_SOA)); w.0.add(&soa_rec(*t)); } } }
+            Op::UFin(t) => { if !fin { if let Some(mut w) = work.take() { w.0.m.remove(&(Rel::apex(), T_SOA)); w.0.add(&soa_rec(*t)); comm = w.0; sh = w.1; } fin = true; } }
+            Op::UDrop | Op::WDrop => { work = None; fin = false; }
+            Op::WRr(n, r) => { if let Some(w) = work.as_mut() { w.0.set(n, r); } }
+            Op::WRm(n, t) => { if let Some(w) = work.as_mut() { w.0.m.remove(&(n.clone(), *t)); } }
+            Op::WCut(n, c) => { if let Some(w) = work.as_mut() { if !n.0.is_empty() {
+                w.0.m.remove(&(n.clone(), T_NS)); w.0.m.remove(&(n.clone(), T_DS)); w.0.m.remove(&(n.clone(), T_CNAME));
+                w.0.set(n, &c.ns); if let Some(d) = &c.ds { w.0.set(n, d); } w.1.insert(n.clone(), sp_of_cut(c)); } } }
+            Op::WCname(n, ttl, rd) => { if let Some(w) = work.as_mut() { if !n.0.is_empty() {
+                w.0.m.remove(&(n.clone(), T_NS)); w.0.m.remove(&(n.clone(), T_DS));
+                w.0.set(n, &RrsetD { rtype: T_CNAME, ttl: *ttl, rds: vec![rd.clone()] });
+                w.1.insert(n.clone(), Sp::Cname([format!("5/{}/{}", ttl, rd.show())].into_iter().collect())); } } }
+            Op::WRegular(n) => { if let Some(w) = work.as_mut() { w.1.remove(n); } }
+            Op::WRemoveAll(n) => { if let Some(w) = work.as_mut() { w.0.remove_below(n); w.1.retain(|k, _| !n.is_prefix_of(k)); } }
+            Op::WCommit => { if let Some(w) = work.take() { comm = w.0; sh = w.1; } }
+        }
+    }
+    if !built && zseen { sh.clear(); let owners: BTreeSet<Rel> = comm.m.keys().map(|k| k.0.clone()).collect();
+        for o in owners { if let Some(x) = expected_special(&comm, &o) { sh.insert(o, x); } } }
+    Replayed { content: comm, special: sh }
+}
+
+#[derive(Clone, Copy, PartialEq, Eq, Debug)]
+enum Disagree { PlainNs, PlainCname, Stale }
+
+/// Nodes whose delegation / alias state differs from what the records at the node say.
+fn disagreeing(rp: &Replayed) -> Vec<(Rel, Disagree)> {
+    let mut names: BTreeSet<Rel> = rp.special.keys().cloned().collect();
+    for k in rp.content.m.keys() { names.insert(k.0.clone()); }
+    let mut v = vec![];
+    for n in names {
+        let have = rp.special.get(&n);
+        let want = expected_special(&rp.content, &n);
+        if have == want.as_ref() { continue; }
+        v.push((n, match (have, &want) { (None, Some(Sp::Cut { .. })) => Disagree::PlainNs, (None, Some(Sp::Cname(_))) => Disagree::PlainCname, _ => Disagree::Stale }));
+    }
+    v
+}
+
+/// Is node `n` on, above or below the lookup path of `q` (its ancestors-or-self and their `*` children)?
+fn related(q: &Rel, n: &Rel) -> bool {
+    let mut path: Vec<Rel> = vec![];
+    for k in 0..=q.0.len() { let pfx = Rel(q.0[..k].to_vec()); path.push(pfx.child("*")); if k > 0 { path.push(pfx); } }
+    path.iter().any(|m| m.is_prefix_of(n) || n.is_prefix_of(m))
+}
+
+/// Name the way a history-built zone deviates.  The three known classes are
+/// used only when the lookup of `q` touches a node whose `Special` disagrees
+/// with the node's records (root cause: ZoneUpdater / RRset-level writes do not
+/// maintain `Special`); everything else gets a class of its own and is an alarm.
+fn history_class(z: &Flat, q: &Rel, e: &Expect, o: &Obs, dis: &[(Rel, Disagree)]) -> &'static str {
+    let rel: Vec<Disagree> = dis.iter().filter(|(n, _)| related(q, n)).map(|(_, d)| *d).collect();
+    if !rel.is_empty() {
+        if (e.what == "referral" || e.what.starts_with("cut_ds")) && rel.contains(&Disagree::PlainNs) { return "updater_ns_not_cut"; }
+        if (e.what == "cname" || e.what == "wild_cname") && rel.contains(&Disagree::PlainCname) { return "updater_cname_not_special"; }
+        if rel.contains(&Disagree::Stale) { return "special_survives_delete"; }
+        if rel.contains(&Disagree::PlainNs) { return "updater_ns_not_cut"; }
+        return "updater_cname_not_special";
+    }
     if o.rcode == 3 && e.rcode != 3 {
         if e.what.starts_with("wild_") { return "deleted_name_shadows_wildcard"; }
         if e.what == "ent_nodata" && !z.owns(q) { return "updater_ent_nxdomain"; }
@@ -580,6 +692,8 @@ fn history_class(z: &Flat, q: &Rel, e: &Expect, o: &Obs, plain: bool) -> &'stati
     }
     if e.what.starts_with("wild_") { return "deleted_name_shadows_wildcard"; }
     if e.rcode == 3 && o.rcode == 0 { return "stale_node_nodata"; }
+    if e.what == "referral" || e.what.starts_with("cut_ds") { return "history_referral_wrong"; }
+    if e.what == "cname" || e.what == "wild_cname" { return "history_cname_wrong"; }
     "history_dependent_other"
 }
 
@@ -850,7 +964,39 @@ impl Ctx {
             }
         };
         let history = ops.iter().any(|o| o.is_history());
-        let plain = is_plain(&ops_s);
+        let rp = replay(ops);
+        let dis = disagreeing(&rp);
+        if let Some(z) = content {
+            // the generators' idea of the final content and the replay of the operations must agree
+            self.out.check(rp.content == *z, "harness_content_mismatch", &ops_s, "generator content differs from the replayed operations");
+        }
+        if history { self.out.count(if dis.is_empty() { "history/special_consistent" } else { "history/special_disagrees" }); }
+        // walk mode: every RRset of the reader's version with owner and at-zone-cut flag, as a sorted multiset
+        {
+            let case = format!("{} ? walk", ops_s);
+            let zone = built.zone.clone();
+            match catch_mut(move || observe_walk(&zone)) {
+                Ok(w) => {
+                    let line = format!("W={} E={}", if w.is_empty() { "-".to_string() } else { w.join(",") }, if built.errs.is_empty() { "-".to_string() } else { built.errs.join(",") });
+                    self.out.case(&case, &line, !w.is_empty(), &format!("{}/walk", kind));
+                    if let Some(z) = content { if z.wf() && dis.is_empty() {
+                        // with consistent delegation state the walk lists exactly the zone's records that are not
+                        // hidden below a delegation, glue being listed (again) at the delegation
+                        let mut want: BTreeSet<String> = BTreeSet::new();
+                        for r in z.records() {
+                            let occluded = (1..=r.owner.0.len()).any(|k| { let pfx = Rel(r.owner.0[..k].to_vec()); z.has(&pfx, T_NS) && (k < r.owner.0.len()) });
+                            if !occluded { want.insert(r.show_slash()); }
+                        }
+                        for (n, sp) in rp.special.iter() { if let Sp::Cut { glue, .. } = sp {
+                            let hidden = (1..n.0.len()).any(|k| z.has(&Rel(n.0[..k].to_vec()), T_NS));
+                            if !hidden { for g in glue { want.insert(g.clone()); } } } }
+                        let got: BTreeSet<String> = w.iter().map(|x| x.rsplitn(2, '/').nth(1).unwrap().to_string()).collect();
+                        self.out.check(got == want, "walk_differs_from_content", &case, &format!("walk {:?} expected {:?}", got, want));
+                    } }
+                }
+                Err(e) => { self.out.check(false, "walk_panics", &case, &e); self.out.case(&case, "Panic", true, kind); }
+            }
+        }
         for (q, t) in queries {
             let case = format!("{} ? {} {}", ops_s, q.show(), t);
             let zone = built.zone.clone();
@@ -867,7 +1013,7 @@ impl Ctx {
                 let e = spec(z, q, *t);
                 self.out.count(&format!("spec/{}", e.what));
                 let ok = matches(&e, &obs);
-                let class = if ok { "ok".to_string() } else if history { history_class(z, q, &e, &obs, plain).to_string() } else { format!("spec_{}", e.what) };
+                let class = if ok { "ok".to_string() } else if history { history_class(z, q, &e, &obs, &dis).to_string() } else { format!("spec_{}", e.what) };
                 self.verdict(ok, &class, &case, &format!("expected {} rcode={} aa={} AN={} AU={} AD={}; got {}",
                     e.what, e.rcode, e.aa as u8, e.answers.iter().map(set_show).collect::<Vec<_>>().join("|"), set_show(&e.authority), set_show(&e.additional), obs.line(&[], 0)));
                 if ok { self.out.check(obs.dup_free(), "duplicate_records_in_answer", &case, &obs.line(&[], 0)); }
@@ -878,7 +1024,7 @@ impl Ctx {
                     if let Ok(ro) = catch_mut(move || observe(&rzc, &qq, tt, false)) {
                         let same = if *t == T_ANY && ro.kind() == "data" && obs.kind() == "data" { ro.authority == obs.authority && ro.additional == obs.additional }
                                    else { ro.rcode == obs.rcode && ro.aa == obs.aa && ro.answer == obs.answer && ro.authority == obs.authority && ro.additional == obs.additional };
-                        let class = if same { "ok".to_string() } else { let c = history_class(z, q, &e, &obs, plain); if c == "history_dependent_other" { "differs_from_rebuilt".to_string() } else { c.to_string() } };
+                        let class = if same { "ok".to_string() } else { let c = history_class(z, q, &e, &obs, &dis); if c == "history_dependent_other" { "differs_from_rebuilt".to_string() } else { c.to_string() } };
                         self.verdict(same, &class, &case, &format!("rebuilt zone answers {}; history zone answers {}", ro.line(&[], 0), obs.line(&[], 0)));
                     }
                 }
